@@ -71,6 +71,9 @@ type c37Op struct {
 	tStart   atomic.Int64
 	tEnd     atomic.Int64
 	name     string
+	ctx      context.Context // nil: context.Background()
+	cancel   context.CancelFunc
+	canceled bool
 }
 
 // c37Inner is the wrapped backend: every data operation stamps start, parks at its gate (if gated), stamps end.
@@ -138,7 +141,10 @@ func c37Gid() int64 {
 func (op *c37Op) run(be backend.Backend) {
 	op.gid.Store(c37Gid())
 	h := backend.Handle{Type: op.typ, Name: op.name}
-	ctx := context.Background()
+	ctx := op.ctx
+	if ctx == nil {
+		ctx = context.Background()
+	}
 	switch op.kind {
 	case 0:
 		_ = be.Save(ctx, h, backend.NewByteReader([]byte("x"), nil))
@@ -305,7 +311,8 @@ type c37Vec struct {
 }
 
 // c37Replay replays one schedule: 10*o+0/1 = call operation o (non-lock / lock file), 10*o+2 = let o's
-// wrapped-backend call return, 1 = Freeze, 2 = Unfreeze.
+// wrapped-backend call return, 10*o+3 = cancel the context of operation o, which the wrapper holds back
+// (queued for a connection slot or at the freeze gate), 1 = Freeze, 2 = Unfreeze.
 func c37Replay(v c37Vec, rng interface{ Intn(int) int }, res *kit.Result) (rec c37Rec, ok bool) {
 	clock := &atomic.Int64{}
 	inner := &c37Inner{n: uint(v.N), clock: clock, gated: true}
@@ -424,8 +431,20 @@ func c37Replay(v c37Vec, rng interface{ Intn(int) int }, res *kit.Result) (rec c
 			inner.ops.Store(op.name, op)
 			rec.Ops = append(rec.Ops, fmt.Sprintf("%d:%s/%s", o, c37Kinds[op.kind], op.typ))
 			res.Count("op_"+c37Kinds[op.kind]+"_"+op.typ.String(), 1)
+			op.ctx, op.cancel = context.WithCancel(context.Background())
 			op.tCall = clock.Add(1)
 			go op.run(be)
+		case ev%10 == 3: // cancel the context of an operation the wrapper holds back
+			op := ops[ev/10]
+			if op == nil || op.canceled || op.returned.Load() || op.tStart.Load() != 0 {
+				// the real wrapper resolved a race differently from this model behaviour: the operation is not waiting
+				rec.Infeasible++
+				continue
+			}
+			op.canceled = true
+			ctlEvents = append(ctlEvents, c37Event{Ev: "cancel", O: op.o, Lock: op.lock, t: clock.Add(1)})
+			res.Count("cancelled_while_held_back", 1)
+			op.cancel()
 		default: // end
 			o := ev / 10
 			op := ops[o]
@@ -477,6 +496,9 @@ func c37Replay(v c37Vec, rng interface{ Intn(int) int }, res *kit.Result) (rec c
 	for _, op := range all {
 		if !op.returned.Load() {
 			rec.Unfinished = append(rec.Unfinished, op.o)
+		}
+		if op.cancel != nil {
+			op.cancel()
 		}
 	}
 	rec.Events = c37Collect(all, ctlEvents)
@@ -577,7 +599,7 @@ func c37Stress(run int, rng interface{ Intn(int) int }, res *kit.Result) (c37Rec
 }
 
 func TestVerif_C37(t *testing.T) {
-	res := kit.NewResult("one case = one run of the real sema backend over a gated fake backend: a TLC-generated schedule (calls of lock / non-lock operations, returns of wrapped calls, Freeze, Unfreeze) or a free-running stress run; distinct by schedule / run id; non-trivial when an operation had to wait (more calls than connections, or a call while frozen)")
+	res := kit.NewResult("one case = one run of the real sema backend over a gated fake backend: a TLC-generated schedule (calls of lock / non-lock operations, returns of wrapped calls, cancellation of the context of a held-back operation, Freeze, Unfreeze) or a free-running stress run; distinct by schedule / run id; non-trivial when an operation had to wait (more calls than connections, or a call while frozen)")
 	recs := kit.NewNDJSON("recs.ndjson")
 	defer func() {
 		recs.Close()
